@@ -299,7 +299,13 @@ def gen_variant(rng: random.Random, kind: str):
         v["links_attr"] = rng.random() < 0.7
         v["stray_links"] = rng.random() < 0.3
     if kind in ("calib", "optical"):
-        v["vp"] = rng.choice(["object", "array22"])
+        v["vp"] = rng.choice(["object", "array22", "lists"])
+    if kind == "calib":
+        v["mapdt"] = rng.choice(["i2", "i2", "i4", "i8", "u2"])     # the map is stored as int16 whatever it is given as
+    if kind == "platCal":
+        v["pc"] = rng.choice(["arrays", "arrays", "lists"])
+    if kind in ("data3D", "emg", "force3D", "platData") and rng.random() < 0.25:
+        v["gap_nan"] = rng.choice(["neg", "payload", "signalling"])
     if kind == "events":
         v["evvals"] = rng.choice(["list", "f4array", "f8array"])
     return v
